@@ -2793,8 +2793,18 @@ def orbital_equinox2equinox(epoch0, epoch, i0, arg0, lon0):
     pir = pie.rad()
     # If i0 is zero, the procedure is different
     if i0 == 0.0:
-        i1 = eta
-        lon1 = pie + p + 180.0
+        # Meeus gives this case for a positive 'eta' (forward interval). For a
+        # negative 'eta' the new inclination is its absolute value and the node
+        # lies on the opposite side; for a null interval nothing changes
+        if eta > 0.0:
+            i1 = eta
+            lon1 = pie + p + 180.0
+        elif eta < 0.0:
+            i1 = -eta
+            lon1 = pie + p
+        else:
+            i1 = i0
+            lon1 = lon0
     else:
         a = sin(i0r) * sin(lon0r - pir)
         b = -sin(etar) * cos(i0r) + cos(etar) * sin(i0r) * cos(lon0r - pir)
